@@ -31,7 +31,8 @@ func TestMain(m *testing.M) {
 			"(never through polyform accessors) and compared with the harness's own parse of the written bytes, with ReadMesh, with Read/Write and with WriteMesh(ReadMesh). " +
 			"Sub-check bytes-roundtrip: rapid-generated well-formed binary STL byte strings (80 header bytes: zero, 'solid ...' text or arbitrary; 0..5 records of finite float32 incl. -0, denormals and +-MaxFloat32; " +
 			"normals zero / unit / arbitrary; attribute words 0 or arbitrary) through Read, Write(Read), ReadMesh and WriteMesh(ReadMesh). " +
-			"Non-trivial = mesh with >= 2 triangles and a non-identity index list, or a byte string with >= 1 record and a non-zero attribute word; distinct by case JSON.",
+			"Non-trivial = mesh with >= 2 triangles and a non-identity index list, or a byte string with >= 1 record and a non-zero attribute word; distinct by case JSON. " +
+			"Sub-checks large (81..131 072 records; every case non-trivial), short-read reader behaviours in every sub-check, and concurrent-*: every concurrent-* case (2-5 bundled cases run at the same time after each passed alone) is non-trivial.",
 		Assumptions: []string{
 			"meshes carry a Position attribute (the attribute-less empty mesh is the only exception): STL has nothing to say about a triangle without positions",
 			"attribute values are finite and inside the float32 range (|x| <= 1e30 generated), so that 'rounded to float32' is a finite number",
